@@ -106,6 +106,7 @@ type cCfg struct {
 	Exp                 goconfig.ThermalMotion
 	ThrOn               bool
 	BucketS, RefillS    int
+	BucketMs            int // bucket-size need not be a whole number of seconds
 	HasLoc              bool
 	Lat, Long, Alt, Acc float32
 	LocTS               time.Time
@@ -183,7 +184,7 @@ func (c *cCfg) toml(outDir string) string {
 		}
 		b.WriteString("\n")
 	}
-	fmt.Fprintf(&b, "[thermal-throttler]\nactivate = %v\nbucket-size = \"%ds\"\nmin-refill = \"%ds\"\n\n", c.ThrOn, c.BucketS, c.RefillS)
+	fmt.Fprintf(&b, "[thermal-throttler]\nactivate = %v\nbucket-size = \"%dms\"\nmin-refill = \"%ds\"\n\n", c.ThrOn, c.BucketS*1000+c.BucketMs, c.RefillS)
 	if c.HasLoc {
 		fmt.Fprintf(&b, "[location]\nlatitude = %v\nlongitude = %v\naltitude = %v\naccuracy = %v\n", c.Lat, c.Long, c.Alt, c.Acc)
 		if !c.LocTS.IsZero() {
@@ -287,10 +288,15 @@ func genCfg(r *verifsim.Run, focus string) cCfg {
 			set("edge-pixels", c.Exp.EdgePixels)
 		}
 		if c.Exp.DynamicThreshold && r.Chance(1, 2) {
-			c.Exp.TempThreshMin = uint16(r.Range(2700, 2900))
-			set("temp-thresh-min", c.Exp.TempThreshMin)
-			c.Exp.TempThreshMax = uint16(r.Range(2900, 3100))
-			set("temp-thresh-max", c.Exp.TempThreshMax)
+			which := r.Draw(3) // both limits, the lower one only, the upper one only (an absent limit is 0 = none)
+			if which != 2 {
+				c.Exp.TempThreshMin = uint16(r.Range(2700, 2900))
+				set("temp-thresh-min", c.Exp.TempThreshMin)
+			}
+			if which != 1 {
+				c.Exp.TempThreshMax = uint16(r.Range(2900, 3100))
+				set("temp-thresh-max", c.Exp.TempThreshMax)
+			}
 		}
 	} else if r.Chance(1, 2) {
 		// model defaults, only the compare gap reduced so that short streams can trigger
@@ -347,6 +353,7 @@ func genCfg(r *verifsim.Run, focus string) cCfg {
 		c.ThrOn = !r.Chance(1, 5)
 		if c.ThrOn {
 			c.BucketS = r.OneOf(1, 2, 3, 5, 10)
+			c.BucketMs = r.OneOf(0, 0, 100, 500, 900)
 			c.RefillS = r.OneOf(2, 5, 20, 60)
 			if c.MinS+c.Preview == 0 {
 				c.MinS, c.MaxS = 1, c.MaxS+1
@@ -1172,7 +1179,7 @@ func runCE2E(r *verifsim.Run) {
 	// stratum: cameras whose frames are larger than a Lepton's 39040 bytes, one after the other
 	// (every per-connection buffer has to be sized for the camera that is connected now)
 	big := (r.Prop == "C14" || r.Prop == "C13" || r.Prop == "C11") && r.Chance(1, 30)
-	bigDims := [][2]int{{200, 100}, {160, 125}, {142, 138}, {250, 90}, {176, 112}}
+	bigDims := [][2]int{{200, 100}, {160, 125}, {142, 138}, {250, 90}, {176, 112}, {320, 256}, {640, 512}, {640, 512}}
 	if big {
 		nConn = r.OneOf(2, 3)
 		r.Probe("stratum-large-frame-cameras")
@@ -1255,6 +1262,9 @@ func runCE2E(r *verifsim.Run) {
 			// few frames, delivered in large pieces (a byte at a time would take minutes)
 			if len(cn.Ev) > 25 {
 				cn.Ev = cn.Ev[:25]
+			}
+			if cfg.W >= 320 && len(cn.Ev) > 6 {
+				cn.Ev = cn.Ev[:6] // real Boson sizes: a frame is 160 or 640 KB
 			}
 			fs := cfg.frameSize()
 			cn.Chunks = []int{fs, fs / 3, 2*fs + 17, 4096}[:r.Range(1, 4)]
@@ -2078,7 +2088,7 @@ func checkThrottledConn(r *verifsim.Run, cn *cConn, cr *cConnResult, recs []refR
 	}
 	c := &cn.Cfg
 	M := (c.MinS + c.Preview) * c.Fps
-	C := float64(c.BucketS * c.Fps)
+	C := (float64(c.BucketS) + float64(c.BucketMs)/1000) * float64(c.Fps) // bucket-size x fps
 	rho := float64(M) / float64(c.RefillS)
 	byTimeOn := map[time.Duration]*cEvent{}
 	procTime := map[int]time.Time{}
